@@ -63,7 +63,7 @@ type c16Env struct {
 	// vacuity counters
 	nRefusedOlder, nNewIncarnation, nCursorAdvance, nNoopMutation, nNotFound atomic.Int64
 	nWalks, nInterleaved, nMultiPage, nTombListed, nTies, nAckAdvance, nRebind atomic.Int64
-	nTombIgnored                                                             atomic.Int64
+	nTombIgnored, nOpPairs                                                   atomic.Int64
 }
 
 func c16Open(r *ev.R, n int) (*c16Env, error) {
@@ -182,6 +182,11 @@ type c16Config struct {
 	cmdVars  []string
 	acks     []uint64
 	walks    bool
+	// shadow systems: every event is ALSO applied to a shadow uid with each operation in its own
+	// batch; atomic multi-operation batches must leave the same row as sequential application
+	shadow  bool
+	ops     []string    // single-operation batches, e.g. "u=s1tomb" "e=s1R4D4" "r=7" "h=6" "a=40" "c=liveA5" "k=8" "t=30"
+	opPairs [][2]string // two operations on the SAME row in ONE atomic batch (fsm: two commands in one ApplyBatch)
 }
 
 func (c *c16Config) events() []string {
@@ -226,6 +231,12 @@ func (c *c16Config) events() []string {
 			}
 		}
 	}
+	for _, o := range c.ops {
+		evs = append(evs, "p1:0:"+o)
+	}
+	for _, p := range c.opPairs {
+		evs = append(evs, "pp:0:"+p[0]+"+"+p[1])
+	}
 	return evs
 }
 
@@ -240,6 +251,18 @@ type c16Driver interface {
 	cmdUpsert(in *c16Inst, m meta.UserCMDChannelMembership) (string, error)
 	cmdAck(in *c16Inst, m meta.UserCMDChannelMembership) (string, error)
 	cmdTomb(in *c16Inst, m meta.UserCMDChannelMembership) (string, error)
+	// batch stages all operations into ONE atomic write batch (fsm: one ApplyBatch call)
+	batch(in *c16Inst, ops []c16Op) (string, error)
+	// failsAtomically: a missing row fails the whole batch (direct WriteBatch); the FSM re-applies
+	// the commands one by one after a stale commit
+	failsAtomically() bool
+}
+
+// c16Op is one staged operation of a multi-operation batch.
+type c16Op struct {
+	kind string // up en rd hd ac cu ca ct
+	m    meta.UserChannelMembership
+	cm   meta.UserCMDChannelMembership
 }
 
 func c16Class(err error) (string, error) {
@@ -289,7 +312,94 @@ func (c16Direct) cmdTomb(in *c16Inst, m meta.UserCMDChannelMembership) (string, 
 	return c16Class(in.shard().TombstoneUserCMDChannelMembership(context.Background(), m.UID, m.CommandChannelID, m.ChannelType, m.TombstoneAt))
 }
 
+func (c16Direct) failsAtomically() bool { return true }
+func (c16Direct) batch(in *c16Inst, ops []c16Op) (string, error) {
+	wb := in.d.db.NewWriteBatch()
+	defer wb.Close()
+	for _, o := range ops {
+		var err error
+		key := meta.ChannelKey{ChannelID: o.m.ChannelID, ChannelType: o.m.ChannelType}
+		switch o.kind {
+		case "up":
+			err = wb.UpsertUserChannelMembership(c16HashSlot, o.m)
+		case "en":
+			err = wb.EnsureUserChannelMembership(c16HashSlot, o.m)
+		case "rd":
+			err = wb.AdvanceUserChannelMembershipReadSeq(c16HashSlot, o.m.UID, key, o.m.ReadSeq, o.m.UpdatedAt)
+		case "hd":
+			err = wb.HideUserChannelMembership(c16HashSlot, o.m.UID, key, o.m.DeletedToSeq, o.m.UpdatedAt)
+		case "ac":
+			err = wb.ActivateUserChannelMembership(c16HashSlot, o.m.UID, key, o.m.ActivatedAt, o.m.UpdatedAt)
+		case "cu":
+			err = wb.UpsertUserCMDChannelMembership(c16HashSlot, o.cm)
+		case "ca":
+			err = wb.AdvanceUserCMDChannelMembershipAckSeq(c16HashSlot, o.cm)
+		case "ct":
+			err = wb.TombstoneUserCMDChannelMembership(c16HashSlot, o.cm)
+		default:
+			panic("unknown op " + o.kind)
+		}
+		if err != nil {
+			return "", err
+		}
+	}
+	return c16Class(wb.Commit())
+}
+
 type c16FSM struct{}
+
+func (c16FSM) failsAtomically() bool { return false }
+func (c16FSM) batch(in *c16Inst, ops []c16Op) (string, error) {
+	cmds := make([]multiraft.Command, len(ops))
+	for i, o := range ops {
+		var data []byte
+		one := []meta.UserChannelMembership{o.m}
+		cone := []meta.UserCMDChannelMembership{o.cm}
+		switch o.kind {
+		case "up":
+			if o.m.Tombstone {
+				data = fsm.EncodeDeleteUserChannelMembershipsCommand(one)
+			} else {
+				data = fsm.EncodeUpsertUserChannelMembershipsCommand(one)
+			}
+		case "en":
+			var err error
+			if data, err = fsm.EncodeEnsureUserChannelMembershipBatchCommandChecked([]fsm.UserChannelMembershipBatchItem{{HashSlot: c16HashSlot, Membership: o.m}}); err != nil {
+				return "", err
+			}
+		case "rd":
+			data = fsm.EncodeAdvanceUserChannelMembershipReadSeqCommand(one)
+		case "hd":
+			data = fsm.EncodeHideUserChannelMembershipCommand(one)
+		case "ac":
+			data = fsm.EncodeActivateUserChannelMembershipCommand(one)
+		case "cu":
+			data = fsm.EncodeUpsertUserCMDChannelMembershipsCommand(cone)
+		case "ca":
+			data = fsm.EncodeAdvanceUserCMDChannelMembershipAcksCommand(cone)
+		case "ct":
+			data = fsm.EncodeTombstoneUserCMDChannelMembershipsCommand(cone)
+		default:
+			panic("unknown op " + o.kind)
+		}
+		cmds[i] = multiraft.Command{SlotID: multiraft.SlotID(c16SlotID), HashSlot: c16HashSlot, Data: data}
+	}
+	res, err := in.d.sm.ApplyBatch(context.Background(), cmds)
+	if err != nil {
+		return "", err
+	}
+	out := "ok"
+	for _, b := range res {
+		switch string(b) {
+		case fsm.ApplyResultOK:
+		case fsm.ApplyResultStaleMeta:
+			out = "notfound"
+		default:
+			return "", fmt.Errorf("command result %q", b)
+		}
+	}
+	return out, nil
+}
 
 func (c16FSM) apply(in *c16Inst, data []byte) (string, error) {
 	res, err := in.d.sm.ApplyBatch(context.Background(), []multiraft.Command{{SlotID: multiraft.SlotID(c16SlotID), HashSlot: c16HashSlot, Data: data}})
@@ -370,7 +480,11 @@ func (e *c16Env) newInst(cfg *c16Config, evs []string, drv c16Driver) *c16Inst {
 	base := fmt.Sprintf("u%08d", id)
 	// the second uid extends the first one: index / primary prefix scans must not leak across
 	names := []string{base + "a", base + "ab"}
-	for u := 0; u < cfg.uids; u++ {
+	nu := cfg.uids
+	if cfg.shadow {
+		nu = 2 // uid#1 is the shadow of uid#0; no event addresses it
+	}
+	for u := 0; u < nu; u++ {
 		uid := names[u]
 		in.uids = append(in.uids, uid)
 		var chs []c16Chan
@@ -472,6 +586,47 @@ func (in *c16Inst) member(u, c int, v c16Var) meta.UserChannelMembership {
 	ch := in.chans[u][c]
 	return meta.UserChannelMembership{UID: in.uids[u], ChannelID: ch.id, ChannelType: ch.typ, JoinSeq: v.join, ReadSeq: v.read,
 		DeletedToSeq: v.del, ActivatedAt: v.act, Tombstone: v.tomb, TombstoneAt: v.tombAt, SourceVersion: v.sv, UpdatedAt: v.upd}
+}
+
+// op builds one staged operation on membership channel 0 / command channel 0 of uid#u.
+func (in *c16Inst) op(u int, tok string) c16Op {
+	kv := strings.SplitN(tok, "=", 2)
+	num, _ := strconv.ParseUint(kv[1], 10, 64)
+	var o c16Op
+	if len(in.chans[u]) > 0 {
+		ch := in.chans[u][0]
+		o.m = meta.UserChannelMembership{UID: in.uids[u], ChannelID: ch.id, ChannelType: ch.typ, UpdatedAt: 20}
+	}
+	if len(in.cmds[u]) > 0 {
+		ch := in.cmds[u][0]
+		o.cm = meta.UserCMDChannelMembership{UID: in.uids[u], CommandChannelID: ch.id, ChannelType: ch.typ}
+	}
+	switch kv[0] {
+	case "u":
+		o.kind, o.m = "up", in.member(u, 0, c16FindVar(c16UpsertVars, kv[1]))
+	case "e":
+		o.kind, o.m = "en", in.member(u, 0, c16FindVar(c16EnsureVars, kv[1]))
+	case "r":
+		o.kind, o.m.ReadSeq = "rd", num
+	case "h":
+		o.kind, o.m.DeletedToSeq = "hd", num
+	case "a":
+		o.kind, o.m.ActivatedAt = "ac", int64(num)
+	case "c":
+		o.kind = "cu"
+		for _, v := range c16CmdVars {
+			if v.name == kv[1] {
+				o.cm.StartSeq, o.cm.AckSeq, o.cm.Tombstone, o.cm.TombstoneAt, o.cm.UpdatedAt = v.start, v.ack, v.tomb, v.tombAt, v.upd
+			}
+		}
+	case "k":
+		o.kind, o.cm.AckSeq, o.cm.UpdatedAt = "ca", num, 20
+	case "t":
+		o.kind, o.cm.TombstoneAt, o.cm.UpdatedAt = "ct", int64(num), int64(num)
+	default:
+		panic("unknown op token " + tok)
+	}
+	return o
 }
 
 // ---------------------------------------------------------------- directory walks
@@ -625,6 +780,7 @@ func (in *c16Inst) Apply(evl string, _ *mc.Env) (string, error) {
 		targets = map[[2]int]bool{} // membership rows the write addresses
 		ctarget = -1
 		incoming []meta.UserChannelMembership
+		pairOps  []c16Op
 	)
 	switch f[0] {
 	case "up":
@@ -696,6 +852,31 @@ func (in *c16Inst) Apply(evl string, _ *mc.Env) (string, error) {
 			m.TombstoneAt, m.UpdatedAt = at, at
 			res, err = in.drv.cmdTomb(in, m)
 		}
+	case "p1", "pp":
+		toks := strings.Split(f[2], "+")
+		var ops, sops []c16Op
+		for _, tk := range toks {
+			ops = append(ops, in.op(0, tk))
+			sops = append(sops, in.op(1, tk))
+		}
+		pairOps = ops
+		if len(in.chans[0]) > 0 && ops[0].kind != "cu" && ops[0].kind != "ca" && ops[0].kind != "ct" {
+			targets[[2]int{0, 0}] = true
+		} else {
+			ctarget = 0
+		}
+		res, err = in.drv.batch(in, ops)
+		if err == nil && !(in.drv.failsAtomically() && res == "notfound") {
+			// reference: the same operations, one after the other, each in its own batch
+			for _, so := range sops {
+				if _, serr := in.drv.batch(in, []c16Op{so}); serr != nil {
+					err = serr
+				}
+			}
+		}
+		if len(ops) > 1 {
+			in.env.nOpPairs.Add(1)
+		}
 	default:
 		panic("unknown event " + evl)
 	}
@@ -713,6 +894,9 @@ func (in *c16Inst) Apply(evl string, _ *mc.Env) (string, error) {
 	// ---- oracle over every row
 	changed := false
 	for uu := range in.uids {
+		if in.cfg.shadow && uu == 1 {
+			continue // the shadow rows are judged by comparison below
+		}
 		for c := range in.chans[uu] {
 			o, oex, n, nex := oldRows[uu][c], oldEx[uu][c], in.rows[uu][c], in.rowsEx[uu][c]
 			same := c16Row(o, oex) == c16Row(n, nex)
@@ -760,6 +944,13 @@ func (in *c16Inst) Apply(evl string, _ *mc.Env) (string, error) {
 				// fenced row is a delete/recreate boundary (DESIGN appendix D); the first import
 				// (stored source version 0) must not regress
 				newInc = incoming[0].SourceVersion > o.SourceVersion && o.SourceVersion != 0
+			case "p1", "pp":
+				newInc = o.Tombstone && !n.Tombstone && n.SourceVersion > o.SourceVersion
+				for _, po := range pairOps {
+					if po.kind == "en" && po.m.SourceVersion > o.SourceVersion && o.SourceVersion != 0 {
+						newInc = true
+					}
+				}
 			}
 			if newInc {
 				in.env.nNewIncarnation.Add(1)
@@ -802,13 +993,38 @@ func (in *c16Inst) Apply(evl string, _ *mc.Env) (string, error) {
 			}
 			// UpsertUserCMDChannelMembership: "Rebinding a tombstoned row resets its start and
 			// acknowledgement boundaries" - tombstone -> live starts a new incarnation
-			if o.Tombstone && !n.Tombstone {
+			rebind := o.Tombstone && !n.Tombstone
+			tomb := o.Tombstone // a tombstone (stored or staged earlier in the batch) followed by a live rebind
+			for _, po := range pairOps {
+				switch {
+				case po.kind == "ct":
+					tomb = true
+				case po.kind == "cu" && !po.cm.Tombstone && tomb:
+					rebind, tomb = true, false
+				}
+			}
+			if rebind {
 				in.env.nRebind.Add(1)
 			} else if n.AckSeq < o.AckSeq {
 				return obs, mc.Violatef("C16:cmd-ack-seq-decreased", "the command-channel ack sequence moved backwards; %s", tr)
 			}
 			if n.AckSeq > o.AckSeq {
 				in.env.nAckAdvance.Add(1)
+			}
+		}
+	}
+	// ---- differential: atomic batch == the same operations applied one after the other
+	if in.cfg.shadow {
+		for c := range in.chans[0] {
+			a, b := c16Row(in.rows[0][c], in.rowsEx[0][c]), c16Row(in.rows[1][c], in.rowsEx[1][c])
+			if a != b {
+				return obs, mc.Violatef("C16:atomic-batch-differs-from-sequential-application", "%s: membership row after the atomic batch {%s} differs from the row after applying the same operations in separate batches {%s} (before: {%s})", evl, a, b, c16Row(oldRows[0][c], oldEx[0][c]))
+			}
+		}
+		for k := range in.cmds[0] {
+			a, b := c16CRow(in.crows[0][k], in.crowsEx[0][k]), c16CRow(in.crows[1][k], in.crowsEx[1][k])
+			if a != b {
+				return obs, mc.Violatef("C16:atomic-batch-differs-from-sequential-application", "%s: command-channel row after the atomic batch {%s} differs from the row after applying the same operations in separate batches {%s} (before: {%s})", evl, a, b, c16CRow(oldC[0][k], oldCEx[0][k]))
 			}
 		}
 	}
@@ -855,6 +1071,31 @@ func TestVerifC16(t *testing.T) {
 	rowCfg := &c16Config{name: "membership-row", uids: 1, chans: 1, upserts: upAll, ensures: enAll,
 		reads: []uint64{1, 4, 7}, hides: []uint64{0, 2, 6}, acts: []int64{5, 25, 40}, pairs: true}
 	cmdCfg := &c16Config{name: "cmd-row", uids: 1, cmdChans: 2, cmdVars: cmdAll, acks: []uint64{1, 3, 8}}
+	// same-row operation pairs inside one atomic batch, with a sequentially written shadow row
+	muts := []string{"r=7", "h=6", "a=40", "h=0", "a=5"}
+	var mpairs [][2]string
+	for _, a := range muts {
+		for _, b := range muts {
+			mpairs = append(mpairs, [2]string{a, b})
+		}
+	}
+	for _, w := range []string{"u=s1liveR2D1A10", "u=s1tomb", "u=s2liveA30", "e=s1R4D4"} {
+		for _, m := range []string{"r=7", "h=6", "a=40"} {
+			mpairs = append(mpairs, [2]string{w, m}, [2]string{m, w})
+		}
+	}
+	mpCfg := &c16Config{name: "membership-pairs", uids: 1, chans: 1, shadow: true,
+		ops:     []string{"u=s0liveR5D3A20", "u=s1liveR2D1A10", "u=s1tomb", "u=s2liveA30", "e=s1R4D4", "r=4", "h=2", "a=25"},
+		opPairs: mpairs}
+	cops := []string{"k=8", "k=3", "t=30", "c=liveA5", "c=liveA0"}
+	var cpairs [][2]string
+	for _, a := range cops {
+		for _, b := range cops {
+			cpairs = append(cpairs, [2]string{a, b})
+		}
+	}
+	cpCfg := &c16Config{name: "cmd-pairs", uids: 1, cmdChans: 1, shadow: true,
+		ops: []string{"c=liveA0", "c=liveA5", "c=liveA2S9", "c=tombA0", "k=1", "t=30"}, opPairs: cpairs}
 	// quick: the writes that move rows in the activation index; thorough adds ensure / read advance
 	dirCfg := &c16Config{name: "directory", uids: 2, chans: 2, walks: true,
 		upserts: []string{"s0live", "s1liveR2D1A10", "s1tomb", "s2liveA30"},
@@ -884,6 +1125,11 @@ func TestVerifC16(t *testing.T) {
 		{dirCfg, c16Direct{}, "direct", ev.Pick(r, 4, 5), 0, ev.Pick(r, int64(60000), int64(800000))},
 		{dirCfg, c16FSM{}, "fsm", ev.Pick(r, 3, 3), 32, ev.Pick(r, int64(20000), int64(80000))},
 	}
+	defs = append(defs,
+		sysDef{mpCfg, c16Direct{}, "direct", ev.Pick(r, 3, 6), 0, 400000},
+		sysDef{mpCfg, c16FSM{}, "fsm", ev.Pick(r, 3, 4), 32, 80000},
+		sysDef{cpCfg, c16Direct{}, "direct", ev.Pick(r, 3, 6), 0, 400000},
+		sysDef{cpCfg, c16FSM{}, "fsm", ev.Pick(r, 3, 4), 32, 80000})
 	if th {
 		defs = append(defs, sysDef{dir3Cfg, c16Direct{}, "direct", 4, 0, 800000})
 	}
@@ -925,6 +1171,8 @@ func TestVerifC16(t *testing.T) {
 	r.Guard("incarnation-boundaries-seen", env.nNewIncarnation.Load() >= 10 && env.nRebind.Load() >= 10, "membership=%d cmd rebinds=%d", env.nNewIncarnation.Load(), env.nRebind.Load())
 	r.Guard("tombstones-exercised", env.nTombIgnored.Load() >= 10 && env.nTombListed.Load() >= 10, "ignored mutations=%d listed tombstones=%d", env.nTombIgnored.Load(), env.nTombListed.Load())
 	r.Guard("directory-walks-nontrivial", env.nMultiPage.Load() >= 1000 && env.nInterleaved.Load() >= 1000 && env.nTies.Load() >= 100, "multi-page=%d interleaved=%d ties=%d", env.nMultiPage.Load(), env.nInterleaved.Load(), env.nTies.Load())
+	r.Count("same_row_operation_pairs_in_one_batch", env.nOpPairs.Load())
+	r.Guard("same-row-operation-pairs-seen", env.nOpPairs.Load() >= 1000, "n=%d", env.nOpPairs.Load())
 	r.Guard("cmd-acks-seen", env.nAckAdvance.Load() >= 100, "n=%d", env.nAckAdvance.Load())
 	r.Guard("state-spaces-nontrivial", res["membership-row-direct"].States >= 500 && res["directory-direct"].States >= 1000 && res["cmd-row-direct"].States >= 50,
 		"row=%d directory=%d cmd=%d", res["membership-row-direct"].States, res["directory-direct"].States, res["cmd-row-direct"].States)
